@@ -36,6 +36,14 @@ chk('C07',
     COMMON_NOTE, 'bounded-exhaustive explicit-state enumeration of connected labelled graphs through writer and reader (round-trip oracle)',
     'DESIGN.md section 4 C07')
 
+chk('C13',
+    'Token-level transition system over fragment texts (organic / two-letter / aromatic / bracket atoms, coarse nodes, bonds, branches, ring closures with and '
+    'without ring bond symbol in digit and %nn style, all four descriptor kinds with labels and order symbols . = #, placed after any atom, before or after its ring '
+    'digits, after a closed branch, leading descriptors, annotations inside bracket atoms, node and branch multipliers in coarse fragments); every complete text '
+    'within the bound (about 13 million texts quick) is given to the real strip_bonding_descriptors and compared exactly with the reference separation.',
+    COMMON_NOTE, 'bounded-exhaustive explicit-state enumeration of fragment texts vs reference separation, run on the real tokenizer',
+    'DESIGN.md section 4 C13')
+
 NOT_YET = {}
 
 def main():
